@@ -34,7 +34,12 @@ let reasm_line (hs : string) : string =
   | Some cs ->
       let show m =
         match reasm_struct pwb_devices m isort_by_id cs with
-        | Ok b -> "concat " ^ hexn b
+        | Ok b -> (
+            (* the payload decoder of C05 on the id-ordered concatenation: success or payload error *)
+            match pwb_decode pwb_macs m b with
+            | Ok _ -> "concat ok " ^ hexn b
+            | Err _ -> "concat payload-err " ^ hexn b
+            | Panic -> "panic")
         | Err _ -> "reasm-err"
         | Panic -> "panic"
       in
